@@ -37,7 +37,13 @@ TSel == /\ l <= Len(Tr) /\ Ev.e = "Sel" /\ Ev.rc = 0
         /\ Ev.inm = names[ptab["lm"]]["lm"][Ev.min]
         /\ Ev.sel = Ev.want
         /\ UNCHANGED vars /\ Step
-TNext == TReset \/ TSetI \/ TSetF \/ TResetI \/ TResetF \/ TTables \/ TConv \/ TSel
+\* one name of one parse table found inside a line by the scanner (dconv -S --from-locale): the text fed in is the table's own entry idx of
+\* kind tab, and the value must come out (got) as the date it was written for -- for EVERY entry, the first one of a line included
+TName == /\ l <= Len(Tr) /\ Ev.e = "Name" /\ Ev.rc = 0
+         /\ Ev.inm = names[ptab[Ev.tab]][Ev.tab][Ev.idx]
+         /\ Ev.got = Ev.want
+         /\ UNCHANGED vars /\ Step
+TNext == TReset \/ TSetI \/ TSetF \/ TResetI \/ TResetF \/ TTables \/ TConv \/ TSel \/ TName
 TSpec == TInit /\ [][TNext]_<<vars, l>>
 Accepted == TLCGet("stats").diameter - 1 = Len(Tr)
 =============================================================================
